@@ -1732,6 +1732,17 @@ func (x *e2Ctx) dstOf(v ssa.Value) (string, string) {
 							if ex := extractOf(t, 0); ex != nil {
 								follow(item{ex, append(append([]string{}, it.xs...), "call:"+sf.Name())}, d+1)
 							}
+						} else if funcKey(sf) == "strings.Join" && len(cc.Args) == 2 && cc.Args[0] == it.v {
+							// the pieces collected in a list and joined once are the pieces concatenated one by one: the list
+							// level disappears, the value becomes part of a concatenation
+							xs2 := append([]string{}, it.xs...)
+							for i := len(xs2) - 1; i >= 0; i-- {
+								if xs2[i] == "append" {
+									xs2 = append(xs2[:i:i], xs2[i+1:]...)
+									break
+								}
+							}
+							follow(item{t, append(xs2, "bin+")}, d+1)
 						} else if !inModule(sf) && !inUio(sf) && sf.Signature.Results().Len() == 1 {
 							// a library function applied to the value (ip.To4(), bytes.TrimRight(b, …)): what it
 							// returns may be (a transform of) the value read
